@@ -1,5 +1,6 @@
 """C18 driver — subject identifiers: consistent across the four release points, stable, typed, opaque."""
 import ast
+import copy
 import base64
 import hashlib
 import inspect
@@ -146,6 +147,44 @@ def dynamic_registration(ctx, cases):
         rs.close()
 
 
+def handover(ctx, cases):
+    """the session state moves to another provider instance built from the same configuration (dump / load of the
+    session manager): a known user logging in again there gets the sub it had (public / pairwise)"""
+    over = {"client_1": {"subject_type": "pairwise", "sector_identifier_uri": SECTORS[1]},
+            "client_2": {"subject_type": "public"},
+            "client_12": {"subject_type": "pairwise", "sector_id": SECTORS[2]}}
+    rs1 = sess.RealSession(oidc=True, jwt_access=False, client_over=copy.deepcopy(over))
+    rs2 = None
+    try:
+        before = {}
+        for u in sess.USERS[:2]:
+            for c in sess.CLIENTS:
+                o = rs1.op_authz(u, c, ["openid"])
+                if o[0] == "ok" and o[1]:
+                    before[(u, c)] = rs1.grants[rs1.tok_grant[o[1][0]]][1].sub
+        state = rs1.sm.dump()
+        rs2 = sess.RealSession(oidc=True, jwt_access=False, client_over=copy.deepcopy(over))
+        rs2.sm.load(copy.deepcopy(state))
+        salt2 = rs2.sm.get_salt()
+        for (u, c), sub1 in before.items():
+            o = rs2.op_authz(u, c, ["openid"])
+            if o[0] != "ok" or not o[1]:
+                ctx.notes.append("handover: login on the second instance failed %r" % (o,))
+                continue
+            g = rs2.find_grant_of_code(o[1][0]) if hasattr(rs2, "find_grant_of_code") else rs2.grants[rs2.tok_grant[o[1][0]]][1]
+            st = rs2.ctx.cdb[c].get("subject_type") or "public"
+            rec = {"handover": True, "user": u, "client": c, "subject_type": st, "sub_before": sub1, "sub_after": g.sub}
+            ctx.case_seen(rec, True)
+            ctx.count("handover:%s" % st)
+            if st != "ephemeral" and g.sub != sub1:
+                ctx.violation("unstable", "after the session state moved to another instance user %s at %s (%s) got another sub" % (u, c, st), rec)
+            cases.append((model_case(rs2.ctx.cdb[c], u, "https://%s.example.com/cb" % c, g.sub, salt2), rec))
+    finally:
+        rs1.close()
+        if rs2 is not None:
+            rs2.close()
+
+
 def run(ctx):
     rng = ctx.rng
     source_tie(ctx)
@@ -275,6 +314,7 @@ def run(ctx):
         finally:
             rs.close()
     dynamic_registration(ctx, cases)
+    handover(ctx, cases)
     ctx.coq_check_cases(["Lib.Base", "Lib.PyStr", "Model.Sub"], "sub_case", "chk_sub", cases, shard=60, label="sub")
 
 
